@@ -8,3 +8,5 @@ mkdir -p work replays evidence
 [ -f harness/Cargo.lock ] || cp /repo/Cargo.lock harness/Cargo.lock
 (cd lean && lake build LruMem lrudriver)
 (cd harness && (cargo build --release --offline || cargo build --release --offline --no-default-features) && (cargo build --offline || cargo build --offline --no-default-features))
+# the builds that instantiate the cache with key / value types without drop glue (used by several checks)
+(cd harness && for v in plain-v plain-k; do cargo build --release --offline --features $v --target-dir target-$v || true; done; cargo build --release --offline --features plain-v,plain-k --target-dir target-plain-kv || true)
